@@ -99,6 +99,36 @@ type SerialCase struct {
 	RFail    int     `json:"rfail"` // reader fails at this byte (-1: never)
 	Damage   string  `json:"damage,omitempty"` // C15: "", enumerate, or a pinned damage "torn:k" | "head:k" | "flip:k:bit" | "zero:k:n" | "xpose:a:b:c" | "dup:i" | "drop:i" | "merge:i", or two joined by "+"
 	Rendered []string `json:"rendered,omitempty"`
+	Long     []int    `json:"long,omitempty"` // C05: extra triples with a text literal padded so that the printed line has exactly this length
+	Big      int      `json:"big,omitempty"`  // C05: this many extra small triples (graphs larger than any page / buffer size)
+}
+
+var longTargets = []int{4095, 4096, 4097, 8191, 8192, 8193, 12288, 16384, 20480, 65535, 65536, 65537, 70000, 131072}
+
+// extraTriples builds the Long and Big triples of a case.
+func (c *SerialCase) extraTriples() []*triple.Triple {
+	var ts []*triple.Triple
+	mk := func(i int, pad string) *triple.Triple {
+		t, err := triple.New(mustNode("/u", "a"), mustImm("p"), mustLit(literal.Text, fmt.Sprintf("%d:", i)+pad))
+		if err != nil {
+			panic(err)
+		}
+		return t
+	}
+	for i, target := range c.Long {
+		overhead := len(mk(i, "").String())
+		if target > overhead {
+			ts = append(ts, mk(i, strings.Repeat("x", target-overhead)))
+		}
+	}
+	for i := 0; i < c.Big; i++ {
+		t, err := triple.New(mustNode("/n", strconv.Itoa(i)), mustImm("p"), triple.NewNodeObject(mustNode("/u", "a")))
+		if err != nil {
+			panic(err)
+		}
+		ts = append(ts, t)
+	}
+	return ts
 }
 
 type serialHarness struct{ prop string }
@@ -138,6 +168,15 @@ func (h *serialHarness) Gen(r *Rand, tier string, clean bool) any {
 			c.WFail = r.Intn(200)
 		case 1:
 			c.RFail = r.Intn(200)
+		}
+		if r.Chance(0.06) {
+			// lines whose length sits on / next to the block sizes of buffered readers
+			for _, k := range pickDistinct(r, len(longTargets), 1+r.Intn(2)) {
+				c.Long = append(c.Long, longTargets[k])
+			}
+		}
+		if r.Chance(0.01) {
+			c.Big = []int{4095, 4096, 4097, 5000, 8193}[r.Intn(5)]
 		}
 	} else {
 		c.Damage = "enumerate"
@@ -212,18 +251,27 @@ func (h *serialHarness) Run(t *testing.T, ci any) *Outcome {
 	for _, s := range c.Ts {
 		ts = append(ts, s.Triple())
 	}
+	nSmall := len(ts)
+	ts = append(ts, c.extraTriples()...)
 	mk := func(cls, f string, a ...any) *Outcome {
 		v := violation("C05:"+cls, f, a...)
+		if len(v.Detail) > 3000 {
+			v.Detail = v.Detail[:3000] + fmt.Sprintf(" ... (%d bytes)", len(v.Detail))
+		}
 		var lines []string
 		for _, x := range ts {
-			lines = append(lines, x.String())
+			if ln := x.String(); len(ln) < 300 && len(lines) < 40 {
+				lines = append(lines, ln)
+			} else if len(ln) >= 300 {
+				lines = append(lines, fmt.Sprintf("%s ... (a line of %d bytes)", ln[:60], len(ln)))
+			}
 		}
 		v.Detail += "\ngraph:\n" + strings.Join(lines, "\n")
 		v.Stats = o.Stats
 		return v
 	}
 	// value level probe (input sampling, not simulation): every component prints and re-parses
-	for _, x := range ts {
+	for _, x := range ts[:nSmall] {
 		if cls, msg := valueRoundTrip(x); cls != "" {
 			return mk("value-roundtrip:"+cls, "%s", msg)
 		}
